@@ -107,7 +107,7 @@ func c03Check(env *core.Env, cc core.Case) core.Verdict {
 				}
 				// the assembly file without a rule lies in the middle of the walk or at its end
 				stale := []string{"943100", "949100"}[len(strings.Join(c.Cmd, " "))%2]
-				tree["regex-assembly/"+stale+".ra"] = "nowhere\n"
+				tree["regex-assembly/"+stale+".ra"] = []string{"nowhere\n", "nowhere\n##!=> neverstored\n", "##!> frobnicate\nnowhere\n"}[len(c.Proj.Files)%3] // no rule for it, or no regex from it
 				tree["rules/REQUEST-"+stale[:3]+"-STALE-LANE.conf"] = "# the rule " + stale + " was removed\n"
 			}
 			if err := tree.WriteOrdered(root, i%2 == 1); err != nil {
